@@ -64,11 +64,11 @@ Next == ASegDelta \/ ASegRange \/ AByteTable \/ ASubHeader \/ ASkipPlatform \/ A
 Spec == Init /\ [][Next]_vars
 
 Done == mi.pc = "done"
-EncoderRoundTrip == RoundTrip(case)
-MachineRef == Done => Result(mi) = RefResult(case)
+EncoderRoundTrip == (mi.i = 0 /\ mi.pc = "run") => RoundTrip(case)      \* once per case
+MachineRef == Done => IF case.kind = "dir" THEN DirOK(Result(mi), case) ELSE Result(mi) = RefResult(case)
 NoIntendedError == mi.err = "none"
 \* NOT expected to hold while Dev is non-empty: the refutation handle
-AsCodedRef == Done => Result(mc) = RefResult(case)
+AsCodedRef == Done => IF case.kind = "dir" THEN DirOK(Result(mc), case) ELSE Result(mc) = RefResult(case)
 Fired == IF Result(mc) = Result(mi) THEN {}
          ELSE {d \in Dev : Result(RunAll(S0, case, Dev)) # Result(RunAll(S0, case, Dev \ {d}))}
 DevLocal == Done /\ Result(mc) # Result(mi) => Fired # {}
